@@ -174,6 +174,12 @@ func c05Run(c *vcore.Ctx) *vcore.Violation {
 			res, out = kRunUnshare(context.Background(), &kOpts{script: script, root: root, mounts: mounts, syncFunc: sync, argv0: probeIn})
 		} else {
 			b := container.Builder{Root: root, Mounts: mb.Mounts}
+			if src.Bool(1, 3, "initcmd") {
+				// an init command (run once inside the finished root) must not change what the programs see
+				b.InitCommand = []string{probeIn, "exit", "0"}
+				c.Event("initcmd")
+				desc = append(desc, "init command")
+			}
 			// custom masks: a directory and a file inside the first directory bind must reveal nothing and accept nothing
 			for _, e := range ents {
 				if e.kind == "binddir" && !strings.Contains(e.target, "/") {
